@@ -131,6 +131,9 @@ func genIntRules(r *vh.Rand, k IKind) (*IntRules, string) {
 		return nil, ""
 	}
 	lo, hi := boundRange(k)
+	if genAST {
+		lo, _ = kindRange(k) // the AST can hold negative bounds
+	}
 	pick := func() int64 {
 		switch r.Intn(8) {
 		case 0:
@@ -410,8 +413,47 @@ func genProp(r *vh.Rand, name string, scope string, env EnumEnv) genDecl {
 	if p.Opt && t.Kind == TKey && t.Entity != nil && t.Entity.Primary != nil && *t.Entity.Primary {
 		class = "compile-error" // primary key forces required
 	}
-	normalise(&p)
+	if genAST {
+		presentButEmpty(r, &p)
+	} else {
+		normalise(&p)
+	}
 	return genDecl{P: p, Class: class}
+}
+
+// the AST can hold rules messages that are present but empty
+func presentButEmpty(r *vh.Rand, p *Prop) {
+	if !r.Chance(25) {
+		return
+	}
+	switch p.T.Kind {
+	case TInt:
+		if p.T.Int == nil {
+			p.T.Int = &IntRules{}
+		}
+	case TStr:
+		if p.T.Str == nil {
+			p.T.Str = &StrRules{}
+		}
+	case TBytes:
+		if p.T.Len == nil {
+			p.T.Len = &LenRules{}
+		}
+	case TBool:
+		if !p.T.HasBool {
+			p.T.HasBool = true
+		}
+	case TEnum:
+		if p.T.Enum == nil {
+			p.T.Enum = &EnumRules{}
+		}
+	}
+	if p.PK == PArray && p.Arr == nil && r.Bool() {
+		p.Arr = &ArrRules{}
+	}
+	if p.PK == PMap && p.MapR == nil && r.Bool() {
+		p.MapR = &MapRules{}
+	}
 }
 
 // the j5s text cannot express a rules message that is present but empty
